@@ -13,13 +13,13 @@ CHECKS = {
         category='exploration',
         technique='offline exactly-once / order / integrity / correlation checker over a delivery ledger recorded at both application boundaries; real endpoints on simulated links under virtual time',
         text='Two real endpoints (RSocketClient, RSocketServer) joined by an in-memory link (real TransportTCP on a '
-             'StreamReader, or a message transport) run 1..12 concurrent interactions of all five models started by '
+             'StreamReader, a message transport, or one of the repository\'s websocket transports on scripted sockets) run 1..12 concurrent interactions of all five models started by '
              'either side with unique pseudo-random payloads from 0 bytes to many fragments; link latency, chunking, '
              'read size, drain blocking, handler and publisher pacing are drawn per case. Every payload handed to the '
              'library must be delivered exactly once, intact, in order, to the matching handler/subscriber only. '
              'Held-on-explored; evidence reports distinct schedule signatures.',
         note='Trusts the recording applications and the virtual-time loop (stock asyncio scheduling, only the clock is '
-             'virtual). aiohttp/quart/QUIC glue code is not executed.',
+             'virtual). The websockets / aiohttp / asyncwebsockets / quart / channels transports run over scripted sockets (fault-free); aioquic / HTTP3 are not executed.',
         design='4/C01'),
     'C05': dict(
         category='exploration',
@@ -68,7 +68,8 @@ CHECKS = {
         text='Each generated sequence of valid and malformed records is decoded under many partitions (all 2-partitions '
              'of short streams, all 3-partitions of very short ones, single bytes, cuts inside every length prefix, '
              'random k-partitions) by FrameParser.receive_data, through TransportTCP.next_frame_generator on a '
-             'StreamReader with several read sizes, and in message mode; outputs must equal the per-record reference '
+             'StreamReader with several read sizes, in message mode, and through the receive loop of the repository\'s real '
+             'websocket transports (websockets, aiohttp, asyncwebsockets, quart, channels; both roles) on a scripted socket; outputs must equal the per-record reference '
              'and the decoder must stay within a logical step bound. Held-on-explored.',
         note='Expected output of a record = parse_or_ignore on that record alone (real decoder); the async generator is '
              'driven synchronously.',
@@ -137,7 +138,9 @@ CHECKS = {
              '(b) a real server / client with a probe stream open receives 1..5 hostile stimuli from a 45-entry catalogue '
              'while probe requests are issued before, during and after; probes must be answered byte-exactly, the open '
              'stream must continue, the only reaction allowed is ERROR on the offending stream (0 for connection-level), '
-             'tasks stay alive, on_close is not called. (c) E-mix runs with one interaction whose application code raises '
+             'tasks stay alive, on_close is not called; half of these runs use the repository\'s websocket transports on '
+             'scripted sockets, with TEXT / PING / empty websocket messages as additional stimuli and the transport\'s own '
+             'receive loop watched. (c) E-mix runs with one interaction whose application code raises '
              '(14 failure modes) next to bystanders that must satisfy the C01 ledger. (d) routing handler and both Rx '
              'handler adapters with raising / healthy application code at each of the five entry points. Held-on-explored.',
         note='Hostile stimuli never use the probe stream ids.',
